@@ -247,7 +247,9 @@ class AsyncIOClient(ABC):
                 await self.writer.drain()
                 self.logger.debug(f"Sent: {msg.hex()}")
 
-        except ValueError as ve:
+        except (ValueError, NotImplementedError) as ve:
+                # the message cannot be sent as such (bad field, unknown PGN, gateway format without an encoder):
+                # nothing was written and the connection is fine
                 self.logger.warning(f"Failed to encode message. Error {ve}")
         except Exception as ex:
             if self._state != State.CLOSED:
